@@ -174,11 +174,14 @@ def _extract_playback_tests(text):
 
 
 HARNESS_FILE_RE = re.compile(r"verif_kani_")
+# Kani enables CBMC's --nan-check and --float-overflow-check by default; a NaN or an infinite result of
+# a float operation is not a panic in Rust (and is ordinary in JS), so these are not failures.
+IGNORED_CBMC_CHECKS = re.compile(r"^(NaN on |arithmetic overflow on floating-point )")
 
 
 def _classify(name, r, cst, pdet, tests, harness_timeout):
     checks = r.get("checks", [])
-    failed, covers, undet, funcs = [], [], [], set()
+    failed, covers, undet, funcs, ignored = [], [], [], set(), []
     for c in checks:
         st = c.get("status", "")
         cat = c.get("category", "")
@@ -192,12 +195,15 @@ def _classify(name, r, cst, pdet, tests, harness_timeout):
         if cat == "cover" or st in ("Satisfied", "Unsatisfiable", "Uncoverable", "Unreachable") and cat == "cover":
             covers.append(item)
         elif st == "Failure":
-            failed.append(item)
+            if IGNORED_CBMC_CHECKS.match(desc):
+                ignored.append(item)  # IEEE NaN / infinity results are defined behaviour in Rust and JS
+            else:
+                failed.append(item)
         elif st in ("Undetermined",):
             undet.append(item)
-    res = {"name": name, "failed": failed, "covers": covers, "checks": len(checks) - len(covers),
+    res = {"name": name, "failed": failed, "covers": covers, "ignored_float_checks": len(ignored), "checks": len(checks) - len(covers),
            "duration_s": r.get("duration_ms", 0) / 1000.0,
-           "stats": cst.get("cbmc_stats", {}), "functions": sorted(x for x in funcs if x),
+           "stats": cst.get("cbmc_stats") or {}, "functions": sorted(x for x in funcs if x),
            "tests": tests, "kani_status": r.get("status")}
     # -- classification (DESIGN 3.3)
     unwinding = [x for x in failed if x["category"] == "unwind" or "unwinding assertion" in x["desc"]]
@@ -210,7 +216,9 @@ def _classify(name, r, cst, pdet, tests, harness_timeout):
                 and HARNESS_FILE_RE.search(x["file"])]
     res["unwinding"], res["unsupported"], res["own"], res["in_repo"], res["scaffold"] = \
         unwinding, unsupported, own, in_repo, scaffold
-    if r.get("status") == "Success":
+    nerr = len([c for c in checks if c.get("status") == "Error"])
+    only_ignored = r.get("status") != "Success" and not failed and ignored and not nerr and checks
+    if r.get("status") == "Success" or only_ignored:
         # (a should_panic harness reports Success together with its expected failed checks)
         failed = []
         bad_cov = [c for c in covers if c["status"] != "Satisfied"]
